@@ -20,7 +20,7 @@ Df(t)         == [type |-> t, args |-> <<>>, res |-> "D"]      \* default resolv
 RsA(t, args)  == [type |-> t, args |-> args, res |-> "R"]
 
 HArgs == << Ag("i", Nm("In")) >>
-InFields == << Ag("r", Nn(Nm("Int"))), Ag("l", Li(Nm("Int"))), Ag("n", Nm("In")), Ag("e", Nm("E")), Ag("ln", Li(Nn(Nm("Int")))) >>
+InFields == << Ag("r", Nn(Nm("Int"))), Ag("l", Li(Nm("Int"))), Ag("n", Nm("In")), Ag("e", Nm("E")), Ag("ln", Li(Nn(Nm("Int")))), Ag("q", Nm("Int")) >>
 FArgs == << Ag("a", Nm("Int")), AgD("b", Nm("String"), [t |-> "str", v |-> "d"]) >>
 GArgs == << Ag("r", Nn(Nm("Int"))) >>
 ZArgs == << Ag("a", Nm("Sz")) >>
